@@ -1114,7 +1114,8 @@ class VM:
                 return obj._element_size
             if key_str == "buffer":
                 # Return the underlying buffer if it exists
-                return getattr(obj, "_buffer", UNDEFINED)
+                buffer = getattr(obj, "_buffer", None)
+                return UNDEFINED if buffer is None else buffer
             # Built-in typed array methods
             typed_array_methods = ["toString", "join", "subarray", "set"]
             if key_str in typed_array_methods:
@@ -2439,7 +2440,7 @@ class VM:
             # Use synchronous execution (like _call_callback)
             return self._call_callback(getter, [], this_val)
         elif callable(getter):
-            return getter()
+            return native_result(getter())
         return UNDEFINED
 
     def _invoke_setter(self, setter: Any, this_val: JSValue, value: JSValue) -> None:
